@@ -137,7 +137,8 @@ def run(ch, build):
         for rnd in range(2):
             for j, c in enumerate(pool):
                 scn["steps"].append({"op": "cmd", "conn": "sessionless", "cmd": c, "ctx_ms": 400,
-                                     "script": ["dupstep", "ok"] if (j and rnd == 0 and (j + k) % 2 == 0) else ["ok"]})
+                                     "script": (["ccnobody:%d" % rng.choice([0xc1, 0xc9, 0xcc, 0xd5]), "ok"] if (j + k) % 3 == 0 else ["dupstep", "ok"])
+                                     if (j and rnd == 0 and (j + k) % 2 == 0) else ["ok"]})
         scns.append(scn)
     # the same inside a session: what the BMC reads after decryption is the table's operation and the caller's body
     sscns = []
@@ -148,7 +149,8 @@ def run(ch, build):
         for rnd in range(2):
             for j, c in enumerate(pool):
                 steps.append({"op": "cmd", "conn": "session", "cmd": c, "ctx_ms": 400,
-                              "script": ["dupstep", "ok"] if (j and rnd == 0 and (j + k) % 2 == 0) else ["ok"]})
+                              "script": (["ccnobody:%d" % rng.choice([0xc1, 0xc9, 0xcc, 0xd5]), "ok"] if (j + k) % 3 == 0 else ["dupstep", "ok"])
+                              if (j and rnd == 0 and (j + k) % 2 == 0) else ["ok"]})
         steps.append({"op": "close"})
         sscns.append({"bmc": conn.default_bmc(seed=500 + k, suites=[[100, su[0], su[1], su[2]]], **({"first_session_id": 1} if k % 3 == 2 else {})),
                       "timeout_ms": 40, "steps": steps})
